@@ -77,7 +77,7 @@ impl Check for C03 {
         let max_len = ctx.tier.pick(4usize, 5usize);
         let corp = corpus();
         ctx.rule = format!(
-            "(1) all strings of length 0..{} over the {}-character alphabet {:?} (every character class of the scanner, every first character of a multi-character symbol, one multi-byte character), each run bare and after `print(\"S\")` on the first line; (2) deviation bound k = 1 over a corpus of {} programs: truncation at every byte offset, deletion and duplication of every character, insertion before and replacement of every character by each of {} characters, deletion / duplication / swap of adjacent tokens, parsed with the real front end (hook ast) and, where the reference says the text is rejected or terminates, run; (3) 1- and 2-byte invalid UTF-8 sequences inserted at every offset of short scripts through the CLI; non-trivial = every input that is not a program of the reference grammar",
+            "(1) all strings of length 0..{} over the {}-character alphabet {:?} (every character class of the scanner, every first character of a multi-character symbol, one multi-byte character), each run bare and after `print(\"S\")` on the first line; (2) deviation bound k = 1 over a corpus of {} programs: truncation at every byte offset, deletion and duplication of every character, insertion before and replacement of every character by each of {} characters, deletion / duplication / swap of adjacent tokens, parsed with the real front end (hook ast) and, where the reference says the text is rejected or terminates, run; (2c) 14 characters outside the usual classes (NUL, controls, non-ASCII spaces and line separators, byte-order mark, combining and 4-byte characters) inserted at every offset of the short corpus programs; (2d) an unexpected token of every kind with 0..90 characters of ASCII / multi-byte content in 6 contexts; (3) 1- and 2-byte invalid UTF-8 sequences inserted at every offset of short scripts through the CLI; non-trivial = every input that is not a program of the reference grammar",
             max_len,
             SIGMA.len(),
             SIGMA.join(""),
@@ -180,6 +180,52 @@ impl Check for C03 {
                 batch.push(c);
             }
         }
+        // (2c) characters outside the usual classes (NUL and other controls, non-ASCII spaces and
+        // line separators, a byte-order mark, a 4-byte character) inserted at every offset of the
+        // short corpus programs
+        let exotic: [&str; 14] = ["\0", "\u{1}", "\u{7f}", "\t", "\r", "\u{b}", "\u{c}", "\u{85}", "\u{a0}", "\u{2028}", "\u{feff}", "\u{200b}", "\u{1f600}", "\u{300}"];
+        let exo_max = ctx.tier.pick(60usize, 110usize);
+        let mut n_exo = 0u64;
+        for (_name, src0) in &corp {
+            if src0.len() > exo_max {
+                continue;
+            }
+            let src = format!("print(\"S\")\n{}", src0);
+            for (i, _) in src.char_indices().filter(|(i, _)| *i >= 11).chain(std::iter::once((src.len(), ' '))) {
+                for x in exotic {
+                    let mut c = Case::new(format!("{}{}{}", &src[..i], x, &src[i..]), T_AST, String::new());
+                    c.mode = Mode::Ast;
+                    c.no_ref = true;
+                    batch.push(c);
+                    n_exo += 1;
+                }
+            }
+            if batch.len() >= 200_000 {
+                self.run_dev_batch(ctx, std::mem::take(&mut batch))?;
+            }
+        }
+        self.run_dev_batch(ctx, std::mem::take(&mut batch))?;
+        // (2d) an unexpected token of every kind and size: the diagnostic quotes the token, so long
+        // and multi-byte tokens reach the message formatting
+        for n in 0..=90usize {
+            let toks = [
+                format!("\"{}\"", "a".repeat(n)),
+                format!("\"{}\"", "é".repeat(n)),
+                format!("\"{}{}\"", "a".repeat(n % 4), "€".repeat(n)),
+                format!("\"{}é{}\"", "a".repeat(n), "b".repeat(90 - n)),
+                format!("$\"{}${{x}}é\"", "é".repeat(n)),
+                format!("v{}", "a".repeat(n)),
+                format!("1{}", "0".repeat(n % 19)),
+                format!("1{}", "_0".repeat(n % 10)),
+            ];
+            for t in toks {
+                for ctxt in ["x := 1 @\n", "x := [1 @]\n", "f(1 @)\n", "x := {\"k\" @}\n", "if true @ {\n}\n", "@ @\n"] {
+                    let mut c = Case::new(format!("print(\"S\")\n{}", ctxt.replace('@', &t)), T_PREFIXED, String::new());
+                    c.no_ref = true;
+                    batch.push(c);
+                }
+            }
+        }
         // (2b) pumping: a unit repeated many times (flat repetition, no nesting)
         let units: [&str; 34] = [
             "\n", ";", " ", "\t", "\r\n", "# c\n", ";\n", "\n\n ", "x\n", "x;", "1\n", "\"a\"\n", "x := 1\n", "print(1)\n", "_", "1", "a", "é", "\"",
@@ -267,7 +313,7 @@ impl Check for C03 {
         ctx.extra.insert(
             "bounds".into(),
             json!({"alphabet": SIGMA.len(), "max_length": max_len, "strings": n_strings, "deviation_k": 1, "deviated_programs": progs,
-                   "deviation_inputs": n_dev, "pumped_inputs": n_pump, "edit_alphabet": sigma.len(), "invalid_utf8_inputs": n_utf}),
+                   "deviation_inputs": n_dev, "pumped_inputs": n_pump, "edit_alphabet": sigma.len(), "invalid_utf8_inputs": n_utf, "exotic_character_insertions": n_exo}),
         );
         Ok(())
     }
